@@ -65,11 +65,50 @@ def instrumented(rec):
     import telingo, telingo.theory as ty, telingo.theory.body as bd
     orig_tr = bd.BodyFormula.translate
     orig_tt = ty.Theory.translate
+    orig_aa = bd.BodyFormula.add_atom
+    orig_al = bd.StepData.add_literal
+    sdcalls = rec.setdefault("sd_calls", [])        # per Theory.translate call: pending pairs and keyed StepData operations
+    sdobjs = rec.setdefault("sd_objects", {})
+    def repkey(f):
+        return f._rep if isinstance(f._rep, str) else str(f._rep)
+    def add_literal(self, backend):
+        self._sd_own = True
+        return orig_al(self, backend)
+    sddepth = [0]
+    sdactive = []
+    def add_atom(self, atom, step):
+        sdobjs[(repkey(self), step)] = self
+        if sdcalls:
+            sdcalls[-1]["ops"].append([repkey(self), step, "add", atom, sddepth[0]])
+        return orig_aa(self, atom, step)
     def translate(self, ctx, step):
-        lit = orig_tr(self, ctx, step)
+        sdobjs[(repkey(self), step)] = self
+        d0 = self._BodyFormula__data.get(step)
+        had = d0 is not None and d0.literal is not None
+        op = [repkey(self), step, "tr", None, None]
+        if sdcalls:
+            sdcalls[-1]["ops"].append(op)
+        if d0 is not None:
+            d0._sd_own = False
+        sddepth[0] += 1
+        pk = (repkey(self), step)
+        if pk in sdactive:
+            rec.setdefault("sd_reentrant", set()).add(pk)      # cyclic unfolding (iteration over a path that consumes no state)
+        sdactive.append(pk)
+        try:
+            lit = orig_tr(self, ctx, step)
+        finally:
+            sddepth[0] -= 1
+            sdactive.pop()
+        if sdcalls:
+            sdcalls[-1]["ops"].append([repkey(self), step, "tr", "had", lit])      # the end of `translate`: the todo list is treated
+        d1 = self._BodyFormula__data.get(step)
+        op[3] = "had" if had else ("own" if getattr(d1, "_sd_own", False) else "assign")
+        op[4] = lit
         rec["pairs"][(self._rep if isinstance(self._rep, str) else str(self._rep), step)] = lit
         return lit
     def ttranslate(self, horizon, prg):
+        sdcalls.append({"horizon": horizon, "pending": [(st, repkey(f)) for st, f in self._Theory__todo], "ops": []})
         atoms = []
         for a in prg.theory_atoms:
             if len(a.term.arguments) != 1:
@@ -125,11 +164,15 @@ def instrumented(rec):
     bd.TelFormula._translate = wrap_call(orig_tel, d_tel)
     bd.make_equal = meq
     bd.BodyFormula.translate = translate
+    bd.BodyFormula.add_atom = add_atom
+    bd.StepData.add_literal = add_literal
     ty.Theory.translate = ttranslate
     try:
         yield
     finally:
         bd.BodyFormula.translate = orig_tr
+        bd.BodyFormula.add_atom = orig_aa
+        bd.StepData.add_literal = orig_al
         ty.Theory.translate = orig_tt
         bd.BooleanFormula.do_translate = orig_bool
         bd.TelFormula._translate = orig_tel
@@ -651,3 +694,138 @@ def check_next_life(text, H, model_exe):
             dis.append({"layer": "L4-next-life", "text": text, "formula": c["rep"], "step": c["step"], "horizon": c["horizon"], "what": bad})
             break
     return {"next_calls": len(calls), "actions": hist}, dis
+
+
+def check_theory_calls(text, H, model_exe):
+    """
+    The calls of `Theory.translate` of a real run against the model `TheoryCall` / `StepData` (TelModel/TheoryCall.lean):
+      * shape of a call (hypotheses `GoodCall` of `theory_atoms_equated`): the registrations of the theory atoms come before all
+        translations; every pair that gets one and every pair that was queued when the call started is translated in that call;
+        on every pair the operations of the second loop are none or end with (the end of) a translation;
+      * per (formula, step) pair: the model run on the pair's operations of all calls ends in the real `StepData`
+        (`literal`, `literals`, `todo`).  A `translate` is two operations: its start (where the literal is provided) and its end
+        (where the todo list is treated) — box / diamond formulas register the literal of their unfolding on their own pair in between.
+    Returns (stats, disagreements).
+    """
+    res, rec = run(text, H)
+    dis = []
+    st = {"theory_calls": len(rec["sd_calls"]), "pairs_compared": 0, "registrations": 0, "late_registrations": 0, "own_registrations": 0}
+    perpair = {}
+    translated_before = set()
+    for c in rec["sd_calls"]:
+        seen_tr = False
+        regs, trs, last = set(), set(), {}
+        for op in c["ops"]:
+            key = (op[0], op[1])
+            if op[2] == "add":
+                if op[4] == 0:
+                    st["registrations"] += 1
+                    if key in translated_before:
+                        st["late_registrations"] += 1
+                    if seen_tr:
+                        dis.append({"layer": "L4-theory-call", "text": text, "what": "a theory atom is registered after a translation within one Theory.translate call", "pair": list(key)})
+                    regs.add(key)
+                else:
+                    st["own_registrations"] += 1
+                    last[key] = "add"
+            else:
+                seen_tr = True
+                trs.add(key)
+                last[key] = "tr"
+            perpair.setdefault(key, []).append(op)
+        for key in sorted(regs | set((rep, stp) for stp, rep in c["pending"])):
+            if key not in trs:
+                dis.append({"layer": "L4-theory-call", "text": text, "horizon": c["horizon"],
+                            "what": "a pair that was registered or queued is not translated in the same Theory.translate call (GoodCall.covers)", "pair": list(key)})
+        for key, what in sorted(last.items()):
+            if what != "tr":
+                dis.append({"layer": "L4-theory-call", "text": text, "horizon": c["horizon"],
+                            "what": "the operations of the call on a pair do not end with a translation (GoodCall.closed)", "pair": list(key)})
+        translated_before |= trs
+    lines, keys, impl = [], [], []
+    ints = lambda l: "(" + " ".join(str(x) for x in l) + ")"
+    for key, ops in sorted(perpair.items()):
+        f = rec["sd_objects"].get(key)
+        d = f._BodyFormula__data.get(key[1]) if f is not None else None
+        if d is None:
+            continue
+        # a pair whose literal is provided by a re-entrant call (cyclic unfolding outside the normal form) is not modelled
+        mops, skip, have = [], key in rec.get("sd_reentrant", ()), False
+        for op in ops:
+            if skip:
+                break
+            if op[2] == "add":
+                mops.append(("add", op[3]))
+            elif op[3] is None or op[4] is None:
+                skip = True
+                break
+            elif op[3] == "had":
+                if not have:
+                    skip = True
+                    break
+                mops.append(("assign", 0))
+            else:
+                if have:
+                    skip = True
+                    break
+                have = True
+                mops.append((op[3], op[4]))
+        if skip:
+            st["pairs_skipped_reentrant"] = st.get("pairs_skipped_reentrant", 0) + 1
+            continue
+        lines.append(tl.sexp(("stepdata",) + tuple(mops)))
+        keys.append(key)
+        impl.append("{} {} {}".format("none" if d.literal is None else d.literal, ints(sorted(d.literals)), ints(d.todo)))
+    outs = model_exe.batch(lines) if lines else []
+    for key, mo, got, line in zip(keys, outs, impl, lines):
+        st["pairs_compared"] += 1
+        parts = mo.strip()
+        depth, cut = 0, None
+        for i in range(len(parts) - 1, -1, -1):      # the model line is `lit (literals) (todo) (outs…)`: cut the last group
+            if parts[i] == ")":
+                depth += 1
+            elif parts[i] == "(":
+                depth -= 1
+                if depth == 0:
+                    cut = i
+                    break
+        mstate = " ".join(parts[:cut].split()) if cut is not None else parts
+        if mstate != got:
+            dis.append({"layer": "L4-stepdata-run", "text": text, "pair": list(key), "ops": line, "model": mstate, "impl": got})
+    return st, dis
+
+
+def theory_call_texts(cases, kind, seed, n):
+    """witness programs for `check_theory_calls`; every second one with a look-ahead constraint over the first formula, so that
+    a ground theory atom of an earlier state turns up in a later call (late registration)"""
+    import random, oracles
+    r = random.Random(seed)
+    cs = r.sample(cases, min(n, len(cases)))
+    out = []
+    for i, (forms, atoms) in enumerate(cs):
+        text = oracles.witness_program(forms, atoms, kind)
+        if i % 2 == 0:
+            body = tl.render_tel(forms[0]) if kind == "tel" else tl.render_del(forms[0])
+            text += "\n#program always. :- {}', {}&{} {{ {} }}.".format(atoms[0] if "(" not in atoms[0] else "zz", "not " if i % 4 == 0 else "", kind, body)
+        out.append(text)
+    return out
+
+def theory_calls_chunk(args):
+    texts, H = args
+    model_exe = tl.LeanExe("telmodel")
+    tot, dis = {}, []
+    for text in texts:
+        try:
+            st, d = check_theory_calls(text, H, model_exe)
+        except BaseException as e:  # noqa
+            if isinstance(e, KeyboardInterrupt):
+                raise
+            if isinstance(e, tl.Timeout):
+                continue
+            d = [{"layer": "L4-theory-call", "text": text, "what": "exception in the implementation: {}: {}".format(tl.classify_exc(e), str(e)[:200])}]
+            st = {}
+        for k, v in st.items():
+            tot[k] = tot.get(k, 0) + v
+        tot["programs"] = tot.get("programs", 0) + 1
+        dis += d
+    return tot, dis
